@@ -7,6 +7,10 @@ Python's comparison / truthiness / identity semantics are irregular.  Operands o
 variables bound to values: side-effect free and never raising, as the property presupposes.
 `in` is equality-based: Python tests identity first, which differs only for NaN (documented
 as a finding); the theorems that involve `in` therefore carry a NaN-freeness guard.
+Text: `str()` / f-strings of the scalars (a whole float only below 1e16, where `repr` switches to exponent
+notation; `str()` of a container — the `repr` of its items — is not modelled and raises), `bin`/`oct`/`hex` and
+the `b`/`o`/`x` format codes of ints, `startswith`/`endswith` (str or tuple argument), `removeprefix`/
+`removesuffix`, `count`, one-sided slices with Python's clamping of negative / too large bounds.
 -/
 namespace RefurbVerif.Py
 
@@ -169,6 +173,144 @@ def pySorted : List Scalar → Except Err (List Scalar)
     let r ← pySorted l
     insSorted a r
 
+
+/-- `max` of a non-empty list: the FIRST maximal element (CPython replaces the candidate only when `item > candidate`) -/
+def maxOfAux (m : Scalar) : List Scalar → Except Err Scalar
+  | [] => .ok m
+  | x :: xs => do
+    let gt ← sLt m x
+    maxOfAux (if gt then x else m) xs
+def maxOf : List Scalar → Except Err Scalar
+  | [] => .error .valueError
+  | x :: xs => maxOfAux x xs
+
+/-- `sorted(xs, reverse=True)`: CPython reverses, sorts stably, reverses — equal elements keep their input order -/
+def pySortedRev (xs : List Scalar) : Except Err (List Scalar) := do
+  let r ← pySorted xs.reverse
+  .ok r.reverse
+
+/-! ### text -/
+
+def isSuffixB (p s : List Char) : Bool := isPrefixB p.reverse s.reverse
+
+/-- the tuple form of `startswith`/`endswith`: items are tested in order, a non-str item raises when it is reached -/
+def affixAny (test : List Char → Bool) : List Scalar → Except Err Bool
+  | [] => .ok false
+  | .str p :: rest => if test p then .ok true else affixAny test rest
+  | _ :: _ => .error .typeError
+
+/-- `x.startswith(arg)` (`suffix = false`) / `x.endswith(arg)`: `x` a str (anything else has no such method), `arg` a str
+    or a tuple of strs -/
+def pyAffix (suffix : Bool) (x arg : Val) : Except Err Bool :=
+  match x with
+  | .sc (.str s) =>
+    match arg with
+    | .sc (.str p) => .ok (if suffix then isSuffixB p s else isPrefixB p s)
+    | .tuple ps => affixAny (fun p => if suffix then isSuffixB p s else isPrefixB p s) ps
+    | _ => .error .typeError
+  | _ => .error .typeError
+
+/-- `x.removeprefix(p)` -/
+def pyRemovePrefix (x p : Val) : Except Err Val :=
+  match x, p with
+  | .sc (.str s), .sc (.str q) => .ok (.sc (.str (if isPrefixB q s then s.drop q.length else s)))
+  | _, _ => .error .typeError
+/-- `x.removesuffix(p)`: CPython removes only a NON-EMPTY suffix -/
+def pyRemoveSuffix (x p : Val) : Except Err Val :=
+  match x, p with
+  | .sc (.str s), .sc (.str q) => .ok (.sc (.str (if isSuffixB q s && !q.isEmpty then s.take (s.length - q.length) else s)))
+  | _, _ => .error .typeError
+
+/-- a slice bound clamped as CPython does: negative counts from the end (not below 0), too large is the length -/
+def clampIdx (n : Nat) (i : Int) : Nat := if i < 0 then (i + n).toNat else min i.toNat n
+
+/-- the value of a slice bound: an int (a bool is one), or None = absent -/
+def sliceBound : Val → Except Err (Option Int)
+  | .sc (.int i) => .ok (some i)
+  | .sc (.bool b) => .ok (some (if b then 1 else 0))
+  | .sc .none => .ok Option.none
+  | _ => .error .typeError
+
+def cutList {α : Type} (lo hi : Option Int) (l : List α) : List α :=
+  let n := l.length
+  let a := match lo with | some i => clampIdx n i | Option.none => 0
+  let b := match hi with | some i => clampIdx n i | Option.none => n
+  (l.drop a).take (b - a)
+
+/-- `v[lo:hi]` (step 1) -/
+def pySlice (v : Val) (lo hi : Option Int) : Except Err Val :=
+  match v with
+  | .list xs => .ok (.list (cutList lo hi xs))
+  | .tuple xs => .ok (.tuple (cutList lo hi xs))
+  | .sc (.str s) => .ok (.sc (.str (cutList lo hi s)))
+  | _ => .error .typeError
+
+/-- unary minus -/
+def pyNeg : Val → Except Err Val
+  | .sc (.int i) => .ok (.sc (.int (-i)))
+  | .sc (.bool b) => .ok (.sc (.int (if b then -1 else 0)))
+  | .sc (.flt .nan) => .ok (.sc (.flt .nan))
+  | .sc (.flt .negZero) => .ok (.sc (.flt (.whole 0)))
+  | .sc (.flt (.whole z)) => .ok (.sc (.flt (if z = 0 then .negZero else .whole (-z))))
+  | _ => .error .typeError
+
+/-- non-overlapping occurrences of a NON-EMPTY `sub`, scanning left to right (`skip` = characters of the last match
+    still to be passed over) -/
+def countFrom (sub : List Char) : Nat → List Char → Nat
+  | _, [] => 0
+  | k + 1, _ :: t => countFrom sub k t
+  | 0, c :: t => if isPrefixB sub (c :: t) then 1 + countFrom sub (sub.length - 1) t else countFrom sub 0 t
+/-- `s.count(sub)` on strings (the empty string occurs `len(s) + 1` times) -/
+def strCount (s sub : List Char) : Nat := if sub.isEmpty then s.length + 1 else countFrom sub 0 s
+
+/-- `x.count(y)`: substring count on strings, number of `==` items on lists / tuples -/
+def pyCount (x y : Val) : Except Err Int :=
+  match x with
+  | .sc (.str s) => match y with | .sc (.str t) => .ok (strCount s t) | _ => .error .typeError
+  | .list xs => .ok (match y with | .sc b => (xs.filter (fun a => sEq a b)).length | _ => 0)
+  | .tuple xs => .ok (match y with | .sc b => (xs.filter (fun a => sEq a b)).length | _ => 0)
+  | _ => .error .typeError
+
+inductive Radix where
+  | bin | oct | hex
+  deriving DecidableEq, Repr
+
+def Radix.base : Radix → Nat | .bin => 2 | .oct => 8 | .hex => 16
+def Radix.letter : Radix → Char | .bin => 'b' | .oct => 'o' | .hex => 'x'
+
+/-- an int in a radix: sign, optional `0b`/`0o`/`0x`, digits of the absolute value (lower case).
+    `alt = true` is `bin(i)`/`oct(i)`/`hex(i)` and the `#b`/`#o`/`#x` format codes; `alt = false` the `b`/`o`/`x` codes -/
+def fmtRadix (r : Radix) (alt : Bool) (i : Int) : List Char :=
+  (if i < 0 then ['-'] else []) ++ (if alt then ['0', r.letter] else []) ++ Nat.toDigits r.base i.natAbs
+
+/-- the operand of `bin()`/`hex()`/… and of an integer format code: an int (a bool is one) -/
+def intLike : Val → Except Err Int
+  | .sc (.int i) => .ok i
+  | .sc (.bool b) => .ok (if b then 1 else 0)
+  | _ => .error .typeError
+
+/-- number of one bits of a natural number (`fuel` ≥ the number suffices) -/
+def popAux : Nat → Nat → Nat
+  | 0, _ => 0
+  | f + 1, n => if n = 0 then 0 else n % 2 + popAux f (n / 2)
+/-- `int.bit_count()`: the number of ones in the binary representation of the ABSOLUTE value -/
+def popcount (n : Nat) : Nat := popAux n n
+
+/-- `str(s)` = `format(s, "")` = what an f-string `{s}` inserts -/
+def pyStr : Scalar → Except Err (List Char)
+  | .none => .ok "None".toList
+  | .bool b => .ok (if b then "True".toList else "False".toList)
+  | .int i => .ok (toString i).toList
+  | .str s => .ok s
+  | .flt .nan => .ok "nan".toList
+  | .flt .negZero => .ok "-0.0".toList
+  | .flt (.whole z) =>
+    if z.natAbs < 10000000000000000 then .ok ((toString z).toList ++ ".0".toList)
+    else .error .valueError     -- NOT MODELLED (repr switches to exponent notation at 1e16); Python does not raise here
+def valStr : Val → Except Err Val
+  | .sc s => do .ok (.sc (.str (← pyStr s)))
+  | _ => .error .typeError      -- NOT MODELLED: str() of a container is the repr of its items
+
 inductive TypeName where
   | noneType | bool | int | float | str | list | tuple
   deriving DecidableEq, Repr
@@ -185,6 +327,23 @@ def typeOf : Val → TypeName
 /-- `isinstance(v, T)` for a builtin class (bool is a subclass of int) -/
 def isInstance (v : Val) (t : TypeName) : Bool :=
   typeOf v == t || (t == .int && typeOf v == .bool)
+
+/-- `T()`: what the constructor of a builtin class returns without arguments (`type(None)()` is None) -/
+def emptyOf : TypeName → Val
+  | .noneType => .sc .none
+  | .bool => .sc (.bool false)
+  | .int => .sc (.int 0)
+  | .float => .sc (.flt (.whole 0))
+  | .str => .sc (.str [])
+  | .list => .list []
+  | .tuple => .tuple []
+
+/-- the items of a sequence (`reversed()` needs one; strings yield their characters) -/
+def seqElems : Val → Except Err (List Scalar)
+  | .list xs => .ok xs
+  | .tuple xs => .ok xs
+  | .sc (.str s) => .ok (s.map (fun c => Scalar.str [c]))
+  | _ => .error .typeError
 
 /-! ### Expressions -/
 
@@ -205,6 +364,18 @@ inductive PyExpr where
   | minL (a : PyExpr) | maxL (a : PyExpr) | sorted (a : PyExpr)
   | index0 (a : PyExpr) | indexLast (a : PyExpr) | sliceAll (a : PyExpr)
   | isinstance (a : PyExpr) (t : TypeName) | typeIsNone (a : PyExpr)   -- `type(a) is type(None)`
+  | typeEqNone (a : PyExpr) | typeNeNone (a : PyExpr) | typeIsNotNone (a : PyExpr)   -- `type(a) == / != / is not type(None)`
+  | isinstance2 (a : PyExpr) (t u : TypeName)                        -- `isinstance(a, t | u)`
+  | call0 (t : TypeName)                                             -- `t()`: the constructor without arguments
+  | tup3 (a b c : PyExpr) | list3 (a b c : PyExpr)
+  | sliceFrom (a i : PyExpr) | sliceTo (a i : PyExpr) | sliceRev (a : PyExpr)   -- `a[i:]`, `a[:i]`, `a[::-1]`
+  | neg (a : PyExpr)
+  | startswith (a b : PyExpr) | endswith (a b : PyExpr) | removeprefix (a b : PyExpr) | removesuffix (a b : PyExpr)
+  | sortedRev (a : PyExpr) | listReversed (a : PyExpr)               -- `sorted(a, reverse=True)`, `list(reversed(a))`
+  | radixOf (r : Radix) (a : PyExpr)                                 -- `bin(a)` / `oct(a)` / `hex(a)`
+  | fmtRadix (r : Radix) (alt : Bool) (a : PyExpr)                   -- `f"{a:#b}"` (alt) / `f"{a:b}"`
+  | fstr (a : PyExpr)                                                -- `f"{a}"`
+  | count (a b : PyExpr) | bitCount (a : PyExpr)                     -- `a.count(b)`, `a.bit_count()`
   deriving Repr
 
 abbrev Env := String → Option Val
@@ -276,10 +447,7 @@ def eval (σ : Env) : PyExpr → Except Err Val
       | .sc (.flt .negZero) => .ok (vInt 0)
       | .sc (.flt .nan) => .error .valueError
       | _ => .error .typeError      -- int("…") parsing is not modelled
-  | .strOf a => do
-      match ← eval σ a with
-      | .sc (.str s) => .ok (.sc (.str s))
-      | _ => .error .typeError      -- str() of non-strings (repr text) is not modelled
+  | .strOf a => do valStr (← eval σ a)
   | .listOf a => do
       match ← eval σ a with
       | .list xs => .ok (.list xs)
@@ -301,7 +469,11 @@ def eval (σ : Env) : PyExpr → Except Err Val
       | .list xs => do .ok (.sc (← minOf xs))
       | .tuple xs => do .ok (.sc (← minOf xs))
       | _ => .error .typeError
-  | .maxL _ => .error .typeError    -- (max is the mirror image; not needed by the proved rules)
+  | .maxL a => do
+      match ← eval σ a with
+      | .list xs => do .ok (.sc (← maxOf xs))
+      | .tuple xs => do .ok (.sc (← maxOf xs))
+      | _ => .error .typeError
   | .sorted a => do
       match ← eval σ a with
       | .list xs => do .ok (.list (← pySorted xs))
@@ -327,6 +499,49 @@ def eval (σ : Env) : PyExpr → Except Err Val
       | _ => .error .typeError
   | .isinstance a t => do .ok (vBool (isInstance (← eval σ a) t))
   | .typeIsNone a => do .ok (vBool (typeOf (← eval σ a) == .noneType))
+  | .typeEqNone a => do .ok (vBool (typeOf (← eval σ a) == .noneType))
+  | .typeNeNone a => do .ok (vBool (typeOf (← eval σ a) != .noneType))
+  | .typeIsNotNone a => do .ok (vBool (typeOf (← eval σ a) != .noneType))
+  | .isinstance2 a t u => do
+      let v ← eval σ a
+      .ok (vBool (isInstance v t || isInstance v u))
+  | .call0 t => .ok (emptyOf t)
+  | .tup3 a b c => do .ok (.tuple [← scalarOf (← eval σ a), ← scalarOf (← eval σ b), ← scalarOf (← eval σ c)])
+  | .list3 a b c => do .ok (.list [← scalarOf (← eval σ a), ← scalarOf (← eval σ b), ← scalarOf (← eval σ c)])
+  | .sliceFrom a i => do
+      let v ← eval σ a
+      let lo ← sliceBound (← eval σ i)
+      pySlice v lo Option.none
+  | .sliceTo a i => do
+      let v ← eval σ a
+      let hi ← sliceBound (← eval σ i)
+      pySlice v Option.none hi
+  | .sliceRev a => do
+      match ← eval σ a with
+      | .list xs => .ok (.list xs.reverse)
+      | .tuple xs => .ok (.tuple xs.reverse)
+      | .sc (.str s) => .ok (.sc (.str s.reverse))
+      | _ => .error .typeError
+  | .neg a => do pyNeg (← eval σ a)
+  | .startswith a b => do .ok (vBool (← pyAffix false (← eval σ a) (← eval σ b)))
+  | .endswith a b => do .ok (vBool (← pyAffix true (← eval σ a) (← eval σ b)))
+  | .removeprefix a b => do pyRemovePrefix (← eval σ a) (← eval σ b)
+  | .removesuffix a b => do pyRemoveSuffix (← eval σ a) (← eval σ b)
+  | .sortedRev a => do
+      match ← eval σ a with
+      | .list xs => do .ok (.list (← pySortedRev xs))
+      | .tuple xs => do .ok (.list (← pySortedRev xs))
+      | _ => .error .typeError
+  | .listReversed a => do
+      let xs ← seqElems (← eval σ a)
+      .ok (.list xs.reverse)
+  | .radixOf r a => do .ok (.sc (.str (fmtRadix r true (← intLike (← eval σ a)))))
+  | .fmtRadix r alt a => do .ok (.sc (.str (fmtRadix r alt (← intLike (← eval σ a)))))
+  | .fstr a => do valStr (← eval σ a)
+  | .count a b => do .ok (vInt (← pyCount (← eval σ a) (← eval σ b)))
+  | .bitCount a => do
+      let i ← intLike (← eval σ a)
+      .ok (vInt (popcount i.natAbs))
 
 /-- the observable outcome the property compares: the value, or the fact that an exception was raised -/
 def outcome (r : Except Err Val) : Option Val :=
@@ -336,7 +551,8 @@ def outcome (r : Except Err Val) : Option Val :=
 
 /-! ### Statements
 
-A tiny block language for the statement-level rewrites (FURB113/125/126/128/133/138/148): assignments,
+A tiny block language for the statement-level rewrites (FURB113/125/126/128/131/133/138/148/160/186/187/188): assignments,
+the in-place list methods `clear`/`sort`/`reverse`, `del x[:]`, `x[:] = []`,
 `x.append(e)`, `x.extend((e1, e2))`, a list comprehension, `return`, `continue`, `if/else`, `for`.
 Lists are VALUES here: `x.append(e)` rebinds `x` to the longer list, so aliasing between names is not
 modelled (the harness executes aliased arguments; the theorems do not speak about them), and list elements
@@ -357,6 +573,11 @@ inductive Stmt where
   | ifElse (c : PyExpr) (t e : List Stmt)
   | forIn (v : String) (it : PyExpr) (body : List Stmt)    -- for v in it: body
   | forEnum (i v : String) (it : PyExpr) (body : List Stmt) -- for i, v in enumerate(it): body
+  | delAll (x : String)                                    -- del x[:]
+  | sliceAssignEmpty (x : String)                          -- x[:] = []
+  | clear (x : String)                                     -- x.clear()
+  | sortIn (x : String) (rev : Bool)                       -- x.sort() / x.sort(reverse=True)
+  | reverseIn (x : String)                                 -- x.reverse()
 
 inductive Flow where
   | next (σ : Env)
@@ -459,6 +680,29 @@ def exec (σ : Env) : Stmt → Flow
       | .ok xs => iterateIdx (fun σ' k a => execBlock (setVar (setVar σ' i (vInt k)) v (.sc a)) body) 0 xs σ
       | .error _ => .raised
     | .error _ => .raised
+  | .delAll x =>
+    match σ x with
+    | some (.list _) => .next (setVar σ x (.list []))
+    | _ => .raised            -- a tuple / str does not support item deletion
+  | .sliceAssignEmpty x =>
+    match σ x with
+    | some (.list _) => .next (setVar σ x (.list []))
+    | _ => .raised
+  | .clear x =>
+    match σ x with
+    | some (.list _) => .next (setVar σ x (.list []))
+    | _ => .raised            -- only lists have .clear() in this universe
+  | .sortIn x rev =>
+    match σ x with
+    | some (.list xs) =>
+      match (if rev then pySortedRev xs else pySorted xs) with
+      | .ok ys => .next (setVar σ x (.list ys))
+      | .error _ => .raised
+    | _ => .raised
+  | .reverseIn x =>
+    match σ x with
+    | some (.list xs) => .next (setVar σ x (.list xs.reverse))
+    | _ => .raised
 def execBlock (σ : Env) : List Stmt → Flow
   | [] => .next σ
   | s :: rest =>
